@@ -146,6 +146,17 @@ class BuildDirs:
                 count = self._build_dir_counts.get(norm_cased_parent, 0)
                 self._build_dir_counts[norm_cased_parent] = count + 1
                 if count > 0:
+                    # Another thread reserved this directory before us. It
+                    # might not have registered the directory as created (if
+                    # it merely observed the directory we had just created),
+                    # so make sure someone owns the directories we created.
+                    for dir_ in created_dirs:
+                        norm_cased_dir = os.path.normcase(dir_)
+                        if norm_cased_dir not in self._created_dirs_map:
+                            self._created_dirs_map[norm_cased_dir] = dir_
+                            self._error_created_dirs.discard(norm_cased_dir)
+                            self._removed_files.discard(norm_cased_dir)
+                            locked_created_dirs.append(dir_)
                     break
                 if parent in created_dirs_set:
                     self._created_dirs_map[norm_cased_parent] = parent
